@@ -7,8 +7,24 @@ REPO=${REPO:-/repo}   # a scratch worktree may be given instead (REPO=/tmp/x); t
 ids="$@"; [ -z "$ids" ] && ids=$(ls seeded | grep '^C')
 props=$(python3 -c "import json;print(' '.join(c['property_id'] for c in json.load(open('/verif/MANIFEST.json'))['checks']))")
 if [ -n "$(git -C $REPO status --porcelain)" ]; then echo "$REPO is not clean"; exit 2; fi
+allprops=$props
 for id in $ids; do
   d=seeded/$id
+  # FOCUS=1: run only the checks of the change's own property and of the properties whose checks fired on it before
+  # (enough to re-establish caught / missed after a change of the checker; the full cross product is the default)
+  props=$allprops
+  if [ -n "$FOCUS" ]; then
+    props=$(python3 - $id <<'PY'
+import json,sys,os
+id=sys.argv[1]; ps=set()
+try: ps.add(json.load(open('/verif/seeded/%s/meta.json'%id))['property'])
+except Exception: pass
+try: ps.update(json.load(open('/verif/seeded/%s/result.json'%id)).get('fired',{}).keys())
+except Exception: pass
+print(' '.join(sorted(ps)))
+PY
+)
+  fi
   git -C $REPO apply /verif/$d/patch.diff || { echo "$id: patch does not apply"; continue; }
   : > /tmp/seeded_$id.txt
   T=$(mktemp -d /tmp/seeded_run.XXXXXX)
@@ -20,8 +36,8 @@ for id in $ids; do
   rm -rf $T
   git -C $REPO apply -R /verif/$d/patch.diff 2>/dev/null   # also removes files the patch created
   git -C $REPO checkout -- .
-  python3 - $id <<'PY'
-import sys,re,json
+  SG_PROPS_RUN="$([ -n "$FOCUS" ] && echo "quick checks of $props (own property and those that fired before)" || echo 'all quick checks of MANIFEST.json')" python3 - $id <<'PY'
+import sys,re,json,os
 id=sys.argv[1]
 cur=None; fired={}; other={}
 for l in open('/tmp/seeded_%s.txt'%id):
@@ -30,7 +46,7 @@ for l in open('/tmp/seeded_%s.txt'%id):
     if m and rc==2: other.setdefault(cur,[]).append('exit 2')
     m=re.match(r'  rule=(\S+) construct=(.*) at (\S+)',l)
     if m: fired.setdefault(cur,[]).append({"rule":m.group(1),"construct":m.group(2),"at":m.group(3)})
-res={"seeded":id,"applied_to":"/repo working tree via git apply, undone with git checkout -- .","checks_run":"all quick checks of MANIFEST.json","caught":bool(fired),"fired":fired,"check_errors":other}
+res={"seeded":id,"applied_to":"/repo working tree via git apply, undone with git checkout -- .","checks_run":os.environ.get("SG_PROPS_RUN","all quick checks of MANIFEST.json"),"caught":bool(fired),"fired":fired,"check_errors":other}
 json.dump(res,open('/verif/seeded/%s/result.json'%id,'w'),indent=1)
 print(id,"CAUGHT by" if fired else "MISSED", {k:sorted(set(x['rule'] for x in v)) for k,v in fired.items()}, other or '')
 PY
